@@ -5,6 +5,7 @@ use crate::core::statements::zero_or_more_statements;
 use crate::expr::ws_expr_pos_p;
 use crate::input::StringView;
 use crate::pc_specific::*;
+use crate::tokens::colon_ws;
 use crate::{ParserError, *};
 
 // SELECT CASE expr ' comment
@@ -20,12 +21,14 @@ use crate::{ParserError, *};
 // CASE <expr>
 
 pub fn select_case_p() -> impl Parser<StringView, Output = Statement, Error = ParserError> {
-    seq4(
+    seq5(
         select_case_expr_p(),
+        // the first CASE may follow on the same line: SELECT CASE X: CASE 1
+        colon_ws().to_option(),
         comments_in_between_keywords(),
         case_blocks(),
         keyword_pair(Keyword::End, Keyword::Select),
-        |expr, inline_comments, all_case_blocks: Vec<CaseBlock>, _| {
+        |expr, _, inline_comments, all_case_blocks: Vec<CaseBlock>, _| {
             // TODO 1 do not clone 2 fail if multiple ELSE blocks 3 fail if ELSE block is not the last one
             // TODO revisit this
             let case_blocks = all_case_blocks
